@@ -168,10 +168,22 @@ def rule_constants(repo: Repo) -> RuleResult:
     g = C.cfg_of(f.node)
     G = L.Guards(f, _const_matcher(p))
     stores = _stores_into(p, f, lambda tr: any(x == ("param:predicate_signature",) for x in tr))
-    if not stores or "const" not in G.atoms_seen:
-        raise AnalysisError(f"fix_grounded_predicate_types: stores into predicate_signature / constant test not recognised (stores={len(stores)})")
+    if not stores:
+        raise AnalysisError("fix_grounded_predicate_types: no store into predicate_signature found")
     pair_ok = True
-    for const in (True, False):
+    no_test = "const" not in G.atoms_seen
+    if no_test:
+        # no test `name in domain.constants` at all: the type cannot depend on whether the argument is a constant; it is right only if
+        # every stored value can come from the constant (it cannot, without a lookup in domain.constants)
+        from_const = any(x[0] == "param:domain" and "attr:constants" in x and x[-1] == "attr:type" for st_ in stores for x in p.trace(st_.value))
+        r.site(f"{f.qn} [constant: True]")
+        r.site(f"{f.qn} [constant: False]")
+        if from_const:
+            raise AnalysisError("fix_grounded_predicate_types: the constant's type is used but the test for a constant was not recognised")
+        r.fail(Finding("C20.constants", f, "types:const=True", "no store distinguishes a domain constant from a parameter: a constant does not get its own type "
+                       "(it keeps the declared type of the position / is looked up in the action signature)", node=stores[0]))
+        r.ok({"constant": False})
+    for const in (() if no_test else (True, False)):
         r.site(f"{f.qn} [constant: {const}]")
         under = G.under({"const": const})
         live = [s_ for s_ in stores if g.node_of(s_) in under[1]]
@@ -200,7 +212,7 @@ def rule_constants(repo: Repo) -> RuleResult:
     if not loops_:
         raise AnalysisError("fix_grounded_predicate_types: the stores are not inside a loop over the parameter positions")
     store_nodes = {g.node_of(st_) for st_ in stores}
-    skipped = [const for const in (True, False) if not L.must_pass_in_loop(G, {"const": const}, loops_[0], store_nodes)]
+    skipped = [const for const in (True, False) if not no_test and not L.must_pass_in_loop(G, {"const": const}, loops_[0], store_nodes)]
     if skipped:
         r.fail(Finding("C20.constants", f, "types:position-skipped", f"for an argument that is{'' if skipped[0] else ' not'} a constant some path through the loop "
                        f"leaves the declared (super)type in place: the typed form then carries the declaration's type instead of the argument's", node=loops_[0]))
@@ -440,10 +452,66 @@ def _ancestors(pm, n):
         yield cur
 
 
+def rule_freshleaf(repo: Repo, rid: str = "C20.freshleaf") -> RuleResult:
+    """grounding a numeric expression builds NEW fluent objects: the grounded tree is later filled with the values of a state
+    (set_expression_value -> set_value), so a leaf that is still the schema's PDDLFunction object makes every evaluation write into the
+    action schema / the domain, and all operators of that action share the value"""
+    r = RuleResult(rid, "every fluent leaf of a grounded numeric tree is a PDDLFunction constructed during grounding, never the lifted tree's own object",
+                   "grounding is substitution into a copy: evaluating a grounded operator never writes into the schema")
+    from ..inline import flatten
+    h = L.fn(repo, f"{GU}::ground_numeric_calculation_tree")
+    funcs = [h]
+    for c in L.calls_in(h.node):        # the recursive worker stays a call in the flattened entry point: it is read on its own as well
+        _cat, tg = repo.resolve_call(h, c)
+        for _k, t, _c in tg:
+            if t is not None and t.mod is h.mod and t.name.startswith("_") and all(t.qn != x.qn for x in funcs):
+                funcs.append(flatten(repo, t))
+    n = 0
+    for f in funcs:
+        if n:
+            break       # the entry point already shows the worker's body (inlined once)
+        p = L.prov(repo, f)
+
+        def is_fn(e, p=p):
+            if isinstance(e, ast.Call) and callee_name(e) == "isinstance" and len(e.args) == 2 and "PDDLFunction" in ast.unparse(e.args[1]):
+                return "isfn"
+            return None
+        G = L.Guards(f, is_fn)
+        if "isfn" not in G.atoms_seen:
+            continue
+        seen = G.reach({"isfn": True})
+        under = G.under({"isfn": True}, seen)
+        params = {x for x in f.params}
+        for c in L.calls_in(f.node):
+            if callee_name(c) != "AnyNode" or not G.reaches_expr({"isfn": True}, c, seen=seen):
+                continue
+            v = next((k.value for k in c.keywords if k.arg == "value"), None)
+            if v is None:
+                continue
+            # only leaves: a node built with children is an operator node (its value is the operator string)
+            if any(k.arg == "children" for k in c.keywords):
+                continue
+            n += 1
+            r.site(L.site(f, c, "grounded leaf"))
+            try:
+                tr = p.trace(v, under=under)
+            except KeyError:
+                tr = set()
+            shared = sorted(x for x in tr if x[0].startswith("param:") and x[0][6:] in params and x[-1] == "attr:value" and "call:PDDLFunction" not in x)
+            if shared:
+                r.fail(Finding(rid, f, "leaf-shared", f"{unparse(c, 60)}: when the lifted leaf holds a PDDLFunction, the grounded leaf can hold that same object "
+                               f"({' . '.join(shared[0][:4])}): values of a state are then written into the schema", node=c))
+            else:
+                r.ok({"leaf": unparse(c, 60)})
+    if n == 0:
+        raise AnalysisError("ground_numeric_calculation_tree: no AnyNode leaf construction under 'the lifted leaf is a PDDLFunction' found")
+    return r
+
+
 def rules(repo: Repo, tier: str) -> List[RuleResult]:
     from . import c07
     grounding = lambda f: f.mod.short in ("models.grounding_utils", "models.grounded_precondition", "models.grounded_effect", "models.pddl_operator")
     return [rule_zip(repo), rule_positional(repo), rule_constants(repo), rule_complete(repo), c02.rule_translate(repo, "C20.translate"),
             # a grounded literal carries ITS argument types: it must not share (and overwrite) the domain's declaration or the action schema
             c07.rule_write(repo, "C20.purity", floor=10, only=grounding),
-            c01.rule_dupkeys(repo, "C20.dupkeys", [f"{GU}::ground_numeric_calculation_tree"])]
+            c01.rule_dupkeys(repo, "C20.dupkeys", [f"{GU}::ground_numeric_calculation_tree"]), rule_freshleaf(repo)]
